@@ -228,18 +228,19 @@ fn secret_values(n: usize, cap: usize) -> Vec<Limbs> {
         let v = vec![half(MAX, 0), half(0, MAX), vec![0; n], generic, quarter([MAX, 0, 0, MAX]), quarter([0, MAX, MAX, 0]), vec![MAX; n], half(1, 2), half(2, 1)];
         return v.into_iter().take(cap.max(4)).collect();
     }
-    let mut v = if n <= 2 { full(n, &l5) } else { runs2(n, &l3) };
-    // named specials: powers of two, bit length multiple of 64, generic
+    let v = if n <= 2 { full(n, &l5) } else { runs2(n, &l3) };
+    // named specials (always kept when the list is thinned): B^(n-1) (bit length just above a multiple of 64), a power of two, generic
     let mut one_top = vec![0u64; n];
     one_top[n - 1] = 1;
-    v.push(one_top);
     let mut p2 = vec![0u64; n];
     p2[n / 2] = 1 << 17;
-    v.push(p2);
-    v.push(generic);
+    let mut specials = vec![one_top, p2, generic];
+    specials.truncate((cap / 3).clamp(1, 3));
     let mut seen = std::collections::BTreeSet::new();
+    let mut v = thin(v, cap.saturating_sub(specials.len()).max(2));
+    v.extend(specials);
     v.retain(|x| seen.insert(x.clone()));
-    thin(v, cap)
+    v
 }
 
 pub struct Pub {
